@@ -347,9 +347,10 @@ fn corpus_pairs() -> Vec<ManifestSet> {
         .into_iter()
         .enumerate()
         .filter(|(i, _)| {
-            // every 7 consecutive entries share a shape (path rotation);
-            // take rotation 2 of shapes whose code hits each section pattern
-            i % 7 == 2 && (i / 7) % 5 == 0
+            // consecutive entries share a shape (one per path rotation);
+            // take rotation 2 of every fifth shape
+            let n = PATHS.len();
+            i % n == 2 && (i / n) % 5 == 0
         })
         .map(|(_, m)| m)
         .collect()
@@ -384,7 +385,7 @@ fn scope_job(ctx: &mut Ctx, res: &mut ShardResult, max_present: usize) {
         }
         // $in/$out are only meaningful in rule-level slots (3, 4).
         for (slot, &a) in assign.iter().enumerate() {
-            if a >= 6 && slot != 3 && slot != 4 {
+            if a >= 7 && slot != 3 && slot != 4 {
                 return;
             }
         }
@@ -599,8 +600,10 @@ fn dups_job(ctx: &mut Ctx, res: &mut ShardResult, max_len: usize) {
 const NODE_SPELLINGS: &[&str] = &[
     // location a/b
     "a/b", "./a/b", "a//b", "a/./b", "a/x/../b", "x/../a/b", "./a/./b", "a/x/y/../../b", "x/./../a/b", "a\\b",
+    "a\\.\\b", "a\\x\\..\\b", "a\\\\b", ".\\a\\b",
     // location c
     "c", "./c", "x/../c", "././c", "x/y/../../c", "x//..//c", ".//c", "x/../y/../c", "./x/../c", "c/",
+    "x\\..\\c", ".\\c", "c\\",
     // location ../d
     "../d", "./../d", "x/../../d", "../x/../d", ".././d", "..//d", "../d/.", "x/../../y/../d", "./x/../../d", "..\\d",
 ];
